@@ -49,9 +49,7 @@ COMMON_ASSUME = [
 
 PROPS = {}
 
-NOT_APPLICABLE = {
-    "C04": "crash/restart durability lives in SQLite (a wasm build run by wazero), the file system and a second process reopening partially written gzip members; none of that exists in an SSA-level encoding of Zeno's Go code and the decisive behaviour is carried by SQL text executed inside that engine (DESIGN.md section 7)",
-}
+NOT_APPLICABLE = {}
 
 PROPS["C18"] = {
     "technique": 'symbolic execution of go/ssa; SMT (z3/cvc5, QF_BVFP) over full-width inputs - unbounded',
@@ -322,17 +320,53 @@ URL_MODELS.update({
     "github.com/philippgille/gokv/leveldb.NewStore": VM + "LevelNewStore",
     Z + "/pkg/models.URLToString": VM + "URLToStringQ",
 })
+LQ = "internal/pkg/source/lq"
+SQLC = "github.com/internetarchive/Zeno/internal/pkg/source/lq/sqlc_model"
+LQ_MODELS = dict(DEFAULT_MODELS)
+LQ_MODELS.update({
+    "database/sql.Open": VM + "LQSqlOpen", "(*database/sql.DB).SetMaxOpenConns": VM + "LQSetMaxOpenConns", "(*database/sql.DB).Exec": VM + "LQExec",
+    "(*database/sql.DB).Begin": VM + "LQBegin", "(*database/sql.Tx).Commit": VM + "LQCommit", "(*database/sql.Tx).Rollback": VM + "LQRollback",
+    "(*" + SQLC + ".Queries).WithTx": VM + "LQWithTx", "(*" + SQLC + ".Queries).GetFreshURLs": VM + "LQGetFreshURLs",
+    "(*" + SQLC + ".Queries).ClaimThisURL": VM + "LQClaimThisURL", "(*" + SQLC + ".Queries).ResetURL": VM + "LQResetURL",
+    "(*" + SQLC + ".Queries).DoneURL": VM + "LQDoneURL", "(*" + SQLC + ".Queries).DeleteURL": VM + "LQDeleteURL",
+    "(*" + SQLC + ".Queries).AddURL": VM + "LQAddURL", "(*" + SQLC + ".Queries).ResetClaimedURLs": VM + "LQResetClaimedURLs",
+})
+PROPS["C04"] = {
+    "technique": 'bounded model checking of go/ssa under an explicit scheduler; the SQLite file is a table model with the contract of query.sql; stop/kill point and schedule are decision variables',
+    "level": "model_checking",
+    "explanation": "queue side of the property only: the real local-queue client, consumer (fetcher, sender), finisher and Stop code run from SSA with their goroutines against the real reactor; "
+                   "the database is a table model of the six statements of query.sql with transactions on the single connection (the native replay uses a real SQLite file); "
+                   "the job is stopped gracefully (order of controler.stopPipeline) or killed when an arbitrary subset of the URLs has been handed out / finished, then started again on the same database; "
+                   "every URL not reported finished must be handed out again, exactly once.",
+    "bounds": "2 URLs waiting (thorough: 2-3); consumer batch (workers) 1-2; reactor tokens 1-2; 0..n URLs handed out before the stop, each finished or in flight; acknowledgement timer fired or not; graceful stop or kill; context switches at blocking operations only (no preemption); the outlink producer of the queue is not started",
+    "outside": "the WARC half of the statement (finished implies captured; readable record by record): needs the WARC library and a file system; a kill in the middle of an SQLite commit (SQLite's own atomicity); "
+               "seeds given on the command line (they are never in the queue); a second process on the same job",
+    "assumptions": COMMON_ASSUME + ["contract of the SQL layer as stated in verifmodel/lqdb.go (validated by the native replay of cover witnesses and counterexamples against real SQLite)",
+                                    "a kill is modelled as the goroutines going away with no further database write (cancel without the shutdown path)",
+                                    "time.Sleep in the queue's polling loop waits for a timer firing granted by the harness"],
+    "models": LQ_MODELS,
+    "init_pkgs": DEFAULT_INIT + ["database/sql"],
+    "stub_pkgs": DEFAULT_STUBS + [STATS],
+    "harnesses": [
+        {"pkg": LQ, "func": "VerifH_C04_resume", "replay_tries": 3, "replay_timeout_s": 60, "opts": {"sleep_env": True, "map_order_all": False, "max_steps": 20000000, "max_wall_s": 900, "no_preempt": True},
+         "covers": ["in-flight-at-stop", "finished-before-stop", "killed", "stopped-gracefully", "unfinished-url", "second-run-stopped"]},
+        {"pkg": LQ, "func": "VerifH_C04_resume3", "thorough_only": True, "replay_tries": 3, "replay_timeout_s": 60, "opts": {"sleep_env": True, "map_order_all": False, "max_steps": 20000000, "max_wall_s": 1800, "no_preempt": True},
+         "covers": ["in-flight-at-stop", "finished-before-stop", "killed", "stopped-gracefully", "unfinished-url", "second-run-stopped"]},
+    ],
+}
+
 PROPS["C05"] = {
     "technique": 'execution of go/ssa over an enumerated URL-shape x filter matrix with modelled ada; data concrete',
     "level": "model_checking",
     "explanation": "the real preprocess() (normalisation glue, include/exclude filters, child removal, de-duplication, local seencheck, request construction) is executed from SSA for a seed, an asset child and a redirect target "
                    "whose URL is drawn from a table of URL shapes (good, built-in excluded host, non-http scheme, localhost, 127.0.0.1, dotless host, exclude-string, quoted, fragment, relative) under all 16 include/exclude filter combinations; "
                    "an independent scope predicate written from the statement decides which nodes may carry a request.",
-    "bounds": "10 URL shapes x 16 filter combinations x {seed, 1-2 asset children, redirect target}; exclusion-file regexes not used; empty seen-store",
-    "outside": "ada-url's parsing itself (modelled by a per-input outcome table; the native replay runs the real ada on the same inputs); regex exclusions; GenerateCrawlConfig appending the two built-in hosts (the harness builds the list it produces)",
+    "bounds": "16 URL shapes x 16 include/exclude filter combinations x 3 exclusion files (none, one literal pattern, two of which the second matches) x {seed, 1-2 asset children, redirect target}; empty seen-store",
+    "outside": "ada-url's parsing itself (modelled by a per-input outcome table; the native replay runs the real ada on the same inputs); regular-expression semantics beyond literal patterns (a literal pattern is modelled as substring search; the native replay uses the real regexp package); GenerateCrawlConfig appending the two built-in hosts (the harness builds the list it produces)",
     "assumptions": COMMON_ASSUME + ["goada.New/NewWithBase return, per input, the protocol/hostname/href recorded in the harness table; Href() has no fragment iff SetHash(\"\") was called",
                                     "http.NewRequest returns a request for a parsable URL; leveldb store = map"],
-    "models": {k: v for k, v in URL_MODELS.items() if not k.endswith("models.URLToString")},
+    "models": dict({k: v for k, v in URL_MODELS.items() if not k.endswith("models.URLToString")},
+                   **{"regexp.MustCompile": VM + "RegexpMustCompile", "(*regexp.Regexp).MatchString": VM + "RegexpMatchString"}),
     "stub_pkgs": DEFAULT_STUBS + [STATS],
     "harnesses": [
         {"pkg": PRE, "func": "VerifH_C05_children", "opts": {"map_order_all": False}, "covers": ["out-of-scope-child", "in-scope-child"]},
